@@ -38,7 +38,7 @@ WQ = ["qint8", "qfloat8", "qfloat8_e4m3fn", "qfloat8_e5m2", "qint4", "qint2"]
 AQ = [None, None, "qint8", "qfloat8"]
 STEPS = ["forward", "calibrate", "calibrate_grad", "freeze", "freeze", "to_cpu", "cpu", "deepcopy", "forward_inference_mode",
          "to_device_obj",
-         "to_non_blocking", "copy", "pickle", "torch_save_module", "apply_clone", "reload_own_state"]
+         "to_non_blocking", "copy", "pickle", "torch_save_module", "apply_clone", "reload_own_state", "to_channels_last"]
 
 
 def compaction(ctx, model, wq, sig0, desc):
@@ -128,7 +128,7 @@ def run(ctx):
             if aq is not None:  # start from calibrated scales
                 with torch.no_grad(), oq.Calibration(streamline=False):
                     model(lifecycle.batch(r, shape, wd))
-            prev = lifecycle.record(model, probes)
+            prev = lifecycle.record(model, probes, ignore_meta=("stride",))
         except Exception as e:
             ctx.violation(dict(sig0, kind="setup_raises", exc=type(e).__name__), dict(desc=desc, msg=str(e)[:300]))
             continue
@@ -175,6 +175,11 @@ def run(ctx):
                 elif step == "deepcopy":
                     model = copy.deepcopy(model)
                     ctx.count("deepcopy_steps")
+                elif step == "to_channels_last":
+                    # a memory-format move: values (and therefore outputs on the same inputs) must not change
+                    model = model.to(memory_format=torch.channels_last)
+                    ctx.count("move_steps")
+                    ctx.count("channels_last_moves")
                 elif step == "to_device_obj":
                     model = model.to(torch.device("cpu"))
                     ctx.count("move_steps")
@@ -203,7 +208,7 @@ def run(ctx):
                 elif step == "reload_own_state":
                     model.load_state_dict(copy.deepcopy(model.state_dict()))
                     ctx.count("other_copy_steps")
-                cur = lifecycle.record(model, probes)
+                cur = lifecycle.record(model, probes, ignore_meta=("stride",))
             except Exception as e:
                 import re
 
@@ -216,6 +221,15 @@ def run(ctx):
             calib = step.startswith("calibrate")
             wprev, rprev = lifecycle.split_state(prev["state"], model)
             wcur, rcur = lifecycle.split_state(cur["state"], model)
+            if step == "to_channels_last":
+                # a memory-format conversion is neither a device move nor a copy: torch picks other kernels, so output bits
+                # may change (they do for float models too); the values held by the model may not
+                if wcur != wprev or rcur != rprev:
+                    ctx.violation(dict(sig0, kind="memory_format_conversion_changed_values", frozen=frozen),
+                                  dict(desc=desc, step_index=si, changed=fp.diff(dict(wprev, **rprev), dict(wcur, **rcur))[:6]))
+                prev = cur
+                hist.append(step)
+                continue
             if not calib:
                 if cur["outs"] != prev["outs"]:
                     ctx.violation(dict(sig0, kind="outputs_changed", step=step, already_frozen=frozen),
